@@ -226,23 +226,23 @@ fn c10_space<K: Kit>(spec: &Spec, lat: &[V], ts: &[f64], rep: &mut Report) {
                 }
                 let da = sp.distance(&st[i], &out);
                 let db = sp.distance(&out, &st[j]);
-                if t == 0.0 && da > tol {
+                if t == 0.0 && !(da <= tol) {
                     viol(rep, "C10", kit, "endpoint-t0", spec, format!("interpolate(a,b,0) is {da} away from a"), det());
                 }
-                if t == 1.0 && db > tol {
+                if t == 1.0 && !(db <= tol) {
                     viol(rep, "C10", kit, "endpoint-t1", spec, format!("interpolate(a,b,1) is {db} away from b"), det());
                 }
                 // Exactly antipodal SO(2)/SO(3) parts: both arcs are shortest, the proportional
                 // distances still hold on either. (In compounds they hold per component; the
                 // compound distances then hold as well.)
-                if (da - t * dab).abs() > tol + 1e-12 * dab || (db - (1.0 - t) * dab).abs() > tol + 1e-12 * dab {
+                if !((da - t * dab).abs() <= tol + 1e-12 * dab) || !((db - (1.0 - t) * dab).abs() <= tol + 1e-12 * dab) {
                     viol(rep, "C10", kit, "constant-speed-shortest-path", spec, format!("d(a,x) = {da}, d(x,b) = {db}, expected {} and {}", t * dab, (1.0 - t) * dab), det());
                 }
                 // reversal
                 let mut rev = st[j].clone();
                 sp.interpolate(&st[j], &st[i], 1.0 - t, &mut rev);
                 let dr = sp.distance(&out, &rev);
-                if !antipodal && dr > 2.0 * tol + 1e-12 * dab {
+                if !antipodal && !(dr <= 2.0 * tol + 1e-12 * dab) {
                     viol(rep, "C10", kit, "reversal", spec, format!("interpolate(a,b,t) and interpolate(b,a,1-t) are {dr} apart"), det());
                 }
             }
